@@ -67,8 +67,8 @@ CLAIMS = {
             "completions, crashes with/without re-queue, replacements, stops) every registered worker is shutting down, holds >= 2 queued tests or the pool is empty, hence the loop never waits with a starved "
             "registered worker unless collection is in progress or some worker holds >= 2 tests; whole system (load): a system invariant (controller, every worker's two threads, both channels, the event queue, "
             "scheduler books = what each worker really holds) holds in every reachable state of the composed transition system (any interleaving, crash points, budgets, maxfail, collections), and in every reachable "
-            "state with the collection agreed and the session not finished some non-crash step is enabled (C02_sys_load_no_standoff). Partial: progress during the collection phase, termination (a variant), and "
-            "the other five modes are validated by the whole-system simulation on the real classes, not proved",
+            "state with the session not finished - also during start-up and collection - some non-crash step is enabled (C02_sys_load_no_standoff_any_phase, via a second invariant layer about the early phase). "
+            "Partial: termination (a variant under fairness and finitely many crashes) and the other five modes are validated by the whole-system simulation on the real classes, not proved",
             "arithmetic case analysis of check_schedule, state invariant by induction over scheduler calls lifted to the DSession loop, whole-system invariant preserved by every step kind + induction over reachability (Lean 4) ; step-by-step replay of every simulated run by the Lean system model with the invariant evaluated after every step ; whole-system simulation with stand-off detection, differential correspondence of schedulers and of the worker threads (lock pre-emption)"),
     "C08": ("Lean theorems about the each scheduler (repaired): schedule() sends runtests_all + shutdown to every new node with its whole collection as book, skips started and still-collecting "
             "nodes; the crash item is the head of the dead node's book and the rest is parked; tests_finished is false while a rest is parked; a replacement of the same spec and collection "
